@@ -75,6 +75,11 @@ CLAIMED = {
     note="Trusted: Coq kernel; stdlib real axioms; scipy.special.j0 and numpy exp/log as leaves; harness/c19.py.",
     technique="Coq proof (linearity and value formula over R) + sparse-intensity correspondence + Hankel-pair oracle",
     design="DESIGN.md §3 C19"),
+ "C14": dict(
+    text="PARTIAL. Coq theorems over the reals for every weighted mesh: discrete Cauchy-Schwarz (sum w F)^2 <= (sum w)(sum w F^2) for non-negative weights, hence 0 <= <F>^2 <= <F^2> after normalisation whenever the model's own F^2 dominates F*F at each mesh point; and the intensity is scale*<F^2>/<V_shell>+background built from the very tuple Fq reports. Not carried by a theorem (per-model C physics): the leaf inequality, equality as q->0 and for spherical shapes, the volume-sphere identity, positivity per mode. These are measured on every amplitude-capable model x parameter sets (incl. each model's random generator) x dispersity on/off x every effective-radius mode x 40 q values from 1e-5/size to 20/size.",
+    note="Trusted: Coq kernel; stdlib real axioms; the tie of the dispersity sums (incl. the F slots) to the Coq model is the C01 correspondence; harness/c14.py.",
+    technique="Coq proof (Cauchy-Schwarz by induction over the mesh) + amplitude oracle on the implementation",
+    design="DESIGN.md §3 C14"),
 }
 NA_REASON = "check not built yet in this session (planned, see DESIGN.md §7)"
 
